@@ -88,7 +88,7 @@ class Ctx:
                     fh.write(content)
         cfg = cfg or module
         meta = tempfile.mkdtemp(prefix="meta-", dir=self.scratch)
-        cmd = ["java", "-XX:+UseParallelGC"]
+        cmd = ["java", "-XX:+UseParallelGC", "-Djava.io.tmpdir=" + self.scratch]   # TLC unpacks its standard modules into tmpdir
         if heap:
             cmd.append("-Xmx" + heap)
         if deque:
@@ -211,7 +211,7 @@ class Ctx:
 
     def sany(self, module):
         self.prepare_spec()
-        p = subprocess.run(["java", "-cp", "/opt/veriftools/tla/tla2tools.jar:/opt/veriftools/tla/CommunityModules-deps.jar",
+        p = subprocess.run(["java", "-Djava.io.tmpdir=" + self.scratch, "-cp", "/opt/veriftools/tla/tla2tools.jar:/opt/veriftools/tla/CommunityModules-deps.jar",
                             "tla2sany.SANY", module + ".tla"], cwd=self.specdir,
                            capture_output=True, text=True)
         if p.returncode != 0 or "Semantic errors" in p.stdout or "Parse Error" in p.stdout or "Fatal errors" in p.stdout:
